@@ -61,6 +61,12 @@ func (d *DBFT[H]) addTransaction(tx Transaction[H]) {
 // accepted proposal is obtained: a backup checks the block and answers with
 // PrepareResponse (or ChangeView if the block is invalid).
 func (d *DBFT[H]) onProposalCompleted() {
+	// PreCommits stored while the transactions were missing are counted by
+	// every node (a watch-only one processes PreBlock too), check them first.
+	if d.isAntiMEVExtensionEnabled() {
+		d.verifyPreCommitPayloadsAgainstPreBlock()
+	}
+
 	if d.IsPrimary() || d.Context.WatchOnly() {
 		return
 	}
@@ -68,8 +74,6 @@ func (d *DBFT[H]) onProposalCompleted() {
 	if !d.createAndCheckBlock() {
 		return
 	}
-
-	d.verifyPreCommitPayloadsAgainstPreBlock()
 
 	d.extendTimer(2)
 	d.sendPrepareResponse()
